@@ -84,7 +84,7 @@ def check(cx):
         f_int = impl_method(cx.facts, HI, logty, 'integral')
         if f_ind is None:
             continue
-        inst = f_ind['path']
+        inst = inst_of(f_ind)
         file, line = fn_loc(f_ind)
         cs = [sym('self.0.0')] if deg == 0 else [sym('self.0.0[%d]' % i) for i in range(deg + 1)]
         res_ty = cx.facts.assoc_type(HI, logty, 'IntegralOf')
@@ -122,7 +122,7 @@ def check(cx):
         guarded(rep, 'anti', inst, f_ind, go)
 
         if f_int is not None:
-            inst2 = f_int['path']
+            inst2 = inst_of(f_int)
             file2, line2 = fn_loc(f_int)
 
             def go2():
